@@ -126,6 +126,27 @@ def programs(rng, tier):
         else:
             trig = "v" + "".join("1" if (x in qs) else "0" for x in range(nv))
             P.add(["nested", partial_table(rng, rng.choice(CONNS)), OR_T() if rng.random() < 0.5 else AND_T(), bdd_sx(a), bdd_sx(b), trig])
+    # thousands of variables with decision variables CONGRUENT modulo 256 / 1024 / 4096 / 32768 (a per-variable table indexed by
+    # the variable modulo a power of two confuses them): exactly one of each congruent pair is quantified
+    for _ in range(60 if tier == "quick" else 1500):
+        m = rng.choice([256, 1024, 4096, 4096, 32768])
+        nv = rng.choice([2 * m + 10, 3 * m + 5, min(65000, 5 * m + 77)])
+        base = rng.randrange(0, min(m, 50))
+        pair = [base, base + m * rng.randrange(1, (nv - 1 - base) // m + 1)]
+        others = rng.sample(range(nv), rng.randrange(0, 3))
+        sup = sorted(set(pair + others))
+        a = bdd_from_tt(nv, sup, [rng.random() < 0.5 for _ in range(1 << len(sup))])
+        supb = sorted(set(rng.sample(sup, rng.randrange(1, len(sup) + 1))))
+        b = bdd_from_tt(nv, supb, [rng.random() < 0.5 for _ in range(1 << len(supb))])
+        q = [rng.choice(pair)] + ([rng.choice(others)] if others and rng.random() < 0.4 else [])
+        vs = ["L"] + [str(x) for x in dup_perm(rng, q)]
+        kk = rng.random()
+        if kk < 0.4:
+            P.add([rng.choice(["exists", "for_all"]), bdd_sx(a), vs])
+        elif kk < 0.5:
+            P.add([rng.choice(["var_exists", "var_for_all"]), bdd_sx(a), str(q[0])])
+        else:
+            P.add([rng.choice(["bin_exists", "bin_for_all"]), partial_table(rng, rng.choice(CONNS)), bdd_sx(a), bdd_sx(b), vs])
     # large operands: outer/inner task caches keyed by pointer pairs, store above 65,536 nodes
     BIG_NV = 20
     for r in range(1 if tier == "quick" else 3):
